@@ -346,13 +346,30 @@ func (e *Engine) proveGE0(target *Form, facts []geZero) (bool, string) {
 		addDiv(f.D)
 	}
 	scales := []*big.Rat{big.NewRat(1, 1), big.NewRat(2, 1)}
+	shares := func(f *Form, atoms map[string]bool) bool {
+		for a := range f.Atoms() {
+			if atoms[a] {
+				return true
+			}
+		}
+		return false
+	}
+	tAtoms := target.Atoms()
 	for i, f1 := range all {
+		// a fact can only help if it mentions something the target mentions
+		if !shares(f1.D, tAtoms) {
+			continue
+		}
 		for _, s1 := range scales {
 			r1 := target.Sub(f1.D.Mul(formRat(s1)))
 			if e.formNonneg(r1) {
 				return true, f1.Why
 			}
-			for _, f2 := range all[i+1:] {
+			rAtoms := r1.Atoms()
+			for j, f2 := range all {
+				if j == i || !shares(f2.D, rAtoms) {
+					continue
+				}
 				r2 := r1.Sub(f2.D)
 				if e.formNonneg(r2) {
 					return true, f1.Why + " and " + f2.Why
